@@ -1976,8 +1976,9 @@ func (l *lexer) lexRuneLiteral() error {
 	if len(l.src) <= p || l.src[p] != '\'' {
 		return l.errorf("rune literal not terminated")
 	}
+	columns := utf8.RuneCount(l.src[:p+1])
 	l.emit(tokenRune, p+1)
-	l.column += p + 1
+	l.column += columns
 	return nil
 }
 
